@@ -692,7 +692,9 @@ class ndarray:
         return self._cmp(o, lambda x, y: x >= y)
 
     def __eq__(self, o):
-        if o is None or isinstance(o, (str, dict, type)):
+        if o is None:
+            return ndarray._from_list([_mk(S.bool_, False)] * self.size, self.shape, dtype(bool))
+        if isinstance(o, (str, dict, type)):
             return False
         try:
             return self._cmp(o, lambda x, y: x == y)
@@ -700,7 +702,9 @@ class ndarray:
             return False
 
     def __ne__(self, o):
-        if o is None or isinstance(o, (str, dict, type)):
+        if o is None:
+            return ndarray._from_list([_mk(S.bool_, True)] * self.size, self.shape, dtype(bool))
+        if isinstance(o, (str, dict, type)):
             return True
         return self._cmp(o, lambda x, y: x != y)
 
